@@ -260,7 +260,12 @@ def impl(case: Case) -> str:
 def canon_equal(case: Case, a: str, b: str) -> bool:
     if a == b:
         return True
-    if case.line.split()[1] in APPROX_OPS:
+    f = case.line.split()
+    if f[1] in APPROX_OPS:
+        return approx_equal(a, b)
+    if f[1] == "mult" and f[3] not in ("-", "0"):
+        # thresholds rounded to 1 or 2 decimals: n / 10^d is not a binary fraction, the float is the
+        # nearest one (which n is compared exactly enough: the tolerance is 2^-20, a step is >= 10^-2)
         return approx_equal(a, b)
     return False
 
@@ -621,6 +626,12 @@ def unary_cases(rng):
     out.append(_mk("sts", fr(k), fmt_scale(s), fmt_vals(bases)))
     if rng.random() < 0.3:
         out.append(_mk("mult", fr(k), 0, fmt_scale(s), fmt_vals(bases), tags=("decimals0",)))
+    if rng.random() < 0.5:
+        # decimals 1 and 2 on scaled thresholds that are NOT on the 10^-d lattice (t*k = m/8: .125 -> .1 / .12,
+        # 12.25 -> 12.2, exact binary ties rounded half to even as numpy.around does)
+        kd = F(rng.choice([1, 3, 5, 7, 9, 11, 13, 15, 17, 21, 27, 2, 6, 10]), 8)
+        dd = rng.choice([1, 2])
+        out.append(_mk("mult", fr(kd), dd, fmt_scale(s), fmt_vals(bases), tags=(f"decimals{dd}",)))
     if rng.random() < 0.2:
         nk = -F(rng.choice([1, 4, 8, 12]), 8)
         out.append(_mk("mult", fr(nk), "-", fmt_scale(s), fmt_vals(bases), claimed=False, tags=("neg",)))
@@ -819,6 +830,10 @@ def corpus():
         _mk("avgrt", "7:1/8", b, tags=("F-C09c",)),
         _mk("inverse", "0:1/4,100:1/2", b),
         _mk("mult", "3/2", "-", "0:1/4,10:1/2", "0,4,20"),
+        # numpy.around on exact binary ties is half to even: .125 -> .12, .375 -> .38, 2.125 -> 2.12, 12.25 -> 12.2, .25 -> .2
+        _mk("mult", "1/8", 2, "0:1/16,1:1/4,3:1/2,17:1,98:1/8", "0,1/8,1/2,2,13", tags=("decimals2", "ties")),
+        _mk("mult", "1/4", 1, "0:1/16,1:1/4,3:1/2,49:1,5:1/8", "0,1/4,1,2,13", tags=("decimals1", "ties")),
+        _mk("mult", "9/8", 1, "0:1/16,100:1/4,200:1/2", "0,112,113,226", tags=("decimals1",)),
         _mk("hist", "new_0_0:1/4,100:1/2;sts_1_0_3/2;mulri_0_2;sts_2_0_3/2;copy_3_2;addts_3_1;calc_3;inv_1_0;avgrt_2_3;addb_0_50_1/8", "0,60,200",
             tags=("same-op-after-mutation",)),
     ]
